@@ -33,6 +33,7 @@ RULE = (
     "minimum, also when the same input object is solved again after its costs were changed in place and after one of its leaves was moved to another species in place; generate_all == set of valid mappings, each exactly once, and the package cost of (up to 300 evenly spaced of) them == recount.  Non-trivial: object "
     "tree >= 3 leaves, species tree >= 2 leaves and some optimal reconciliation contains a "
     "duplication, transfer or loss; distinct by SHA-1 of the canonical JSON case."
+    '  Random layer classes: a tenth of the cases 6..10 object / 3..8 species leaves and a third 3..6 objects on 7..9 species leaves (both decided by the memoised-recursion oracle, thl only); a quarter of the small cases with unnamed ancestors in both trees (read by clades); a third of the inputs name a third of their leaves after another species than their host; one cost vector in 12 has a unit cost of 10^6..10^12 or is scaled by such a factor.'
 )
 ASSUMPTIONS = [
     "cost vectors restricted to spe <= dup + 2*floss (outside: known finding F-COHERENCE, witnesses replayed only)",
